@@ -528,7 +528,7 @@ fn serve(rt: &tokio::runtime::Runtime, cfg: &Cfg, deny: &[IpNet], allow: &[IpNet
 /// what the real decoder says about the request (the model's parameters, and the oracle's facts)
 struct Parsed {
     header: Option<Header>,
-    /// `Queries::read` succeeded: the question bytes and the parsed query
+    /// `Queries::read` succeeded: the question bytes of the request and the parsed query
     question: Option<(Vec<u8>, Query)>,
     /// `MessageRequest::read_with_queries` succeeded (None: not reached)
     body: Option<bool>,
@@ -541,7 +541,8 @@ fn parse_request(bytes: &[u8]) -> Parsed {
     let Ok(h) = Header::read(&mut d) else { return p };
     p.header = Some(h);
     let Ok(q) = Queries::read(&mut d, h.counts.queries as usize) else { return p };
-    p.question = Some((q.as_bytes().to_vec(), (*q).original().clone()));
+    // the question bytes as they stand in the request (not `Queries::as_bytes()`)
+    p.question = Some((bytes[12..d.index()].to_vec(), (*q).original().clone()));
     match MessageRequest::read_with_queries(&mut d, q, h) {
         Ok(m) => {
             p.body = Some(true);
@@ -637,6 +638,41 @@ fn scan_response(r: &[u8], req_q: Option<&[u8]>) -> Option<Resp> {
 }
 
 // ------------------------------------------------------------------ the property's oracle (independent of the model)
+
+/// reference decoder for the question at offset 12: follows compression pointers (bounded), no
+/// limits enforced — only used to compare what request and response *say*
+fn decode_question(m: &[u8]) -> Option<(Vec<Vec<u8>>, u16, u16)> {
+    let mut labels = vec![];
+    let mut p = 12usize;
+    let mut end: Option<usize> = None;
+    let mut hops = 0;
+    loop {
+        let x = *m.get(p)?;
+        if x == 0 {
+            p += 1;
+            break;
+        } else if x >= 0xC0 {
+            let t = (((x & 0x3F) as usize) << 8) | *m.get(p + 1)? as usize;
+            if end.is_none() {
+                end = Some(p + 2);
+            }
+            hops += 1;
+            if hops > 64 {
+                return None;
+            }
+            p = t;
+        } else if x < 64 {
+            labels.push(m.get(p + 1..p + 1 + x as usize)?.to_vec());
+            p += 1 + x as usize;
+        } else {
+            return None;
+        }
+    }
+    let e = end.unwrap_or(p);
+    let t = u16::from_be_bytes([*m.get(e)?, *m.get(e + 1)?]);
+    let c = u16::from_be_bytes([*m.get(e + 2)?, *m.get(e + 3)?]);
+    Some((labels, t, c))
+}
 
 fn lower(l: &[u8]) -> Vec<u8> {
     l.iter().map(|c| c.to_ascii_lowercase()).collect()
@@ -920,21 +956,28 @@ impl Runner {
                     }
                 }
             }
-            // question: required once the server parsed it (known opcode, question decodes)
+            // question: required once the server parsed it (known opcode, question decodes).
+            // "Equal" is judged on the decoded question (labels octet for octet, type, class), read
+            // from request and response by the small decoder below — echoing the request's bytes is
+            // how the server achieves it, but the bytes must still *mean* the same in the response.
             if known_op {
                 if let Some((qb, q)) = &parsed.question {
-                    if r.echo != Some(true) {
-                        fails.push(("response does not carry the request's question".into(), ""));
-                    } else if qb[..qb.len() - 4] != wire_name(&labels_of(&q.name))[..] {
-                        // compressed question name (pointer into the header), echoed byte for byte:
-                        // does it still *mean* the same question inside the response?
+                    let compressed = qb[..qb.len() - 4] != wire_name(&labels_of(&q.name))[..];
+                    if compressed {
                         rec.stat("question.compressed");
-                        let same = Message::from_vec(&v[0]).ok().is_some_and(|m| m.queries.len() == 1 && m.queries[0] == *q);
-                        if !same {
+                    }
+                    let want = decode_question(bytes);
+                    let have = if r.qd == 1 { decode_question(&v[0]) } else { None };
+                    if want.is_none() {
+                        rec.stat("note.question-not-decodable-by-reference-decoder");
+                    } else if have != want {
+                        if compressed && r.echo == Some(true) {
                             fails.push((
                                 "the echoed question bytes contain a compression pointer into the header and decode to a different question (or not at all) in the response".into(),
                                 "C11.CompressedQuestionEcho",
                             ));
+                        } else {
+                            fails.push(("response does not carry the request's question".into(), ""));
                         }
                     }
                 }
